@@ -392,4 +392,91 @@ SEEDS = [
             debug_assert!(self.node(index).entity.key <= entity.key);
 
             delete_index = successor_index;""", note='key comparison after the payload move inside the removal (debug builds)'),
+
+    dict(id='T1-set-case5-recolor', props=['C02'], file='src/set/tree.rs',
+         old="""            if sibling_right != EMPTY_REF {
+                self.node_mut(sibling_right).color = Color::Black;
+            }
+            self.node_mut(s_index).color = Color::Red;
+            self.rotate_left(s_index);""",
+         new="""            if sibling_right != EMPTY_REF {
+                self.node_mut(sibling_right).color = Color::Black;
+            }
+            self.node_mut(s_index).color = Color::Black;
+            self.rotate_left(s_index);""", note='delete repair case 5 (right-hand mirror) recolours the sibling black'),
+    dict(id='T2-map-rotate-left-parent', props=['C02'], file='src/map/tree.rs',
+         old="""        let node = self.node_mut(index);
+        node.right = rt_left;
+        node.parent = rt_index;""",
+         new="""        let node = self.node_mut(index);
+        node.right = rt_left;""", note='rotate_left does not re-parent the rotated node'),
+    dict(id='T3-key-insert-case5b-colour', props=['C02'], file='src/key/tree.rs',
+         old="""            // Case 5b: Uncle is black and node is right->right "outer child" of its grandparent
+            self.rotate_left(g_index);
+
+            // Recolor original parent and grandparent
+            self.node_mut(p_index).color = Color::Black;
+            self.node_mut(g_index).color = Color::Red;""",
+         new="""            // Case 5b: Uncle is black and node is right->right "outer child" of its grandparent
+            self.rotate_left(g_index);
+
+            // Recolor original parent and grandparent
+            self.node_mut(p_index).color = Color::Black;
+            self.node_mut(g_index).color = Color::Black;""", note='insert repair 5b leaves the grandparent black'),
+    dict(id='T4-set-red-sibling-rotation', props=['C02'], file='src/set/tree.rs',
+         old="""        if n_index == parent.left {
+            self.rotate_left(p_index)
+        } else {
+            self.rotate_right(p_index)
+        }""",
+         new="""        if n_index == parent.left {
+            self.rotate_left(p_index)
+        } else {
+            self.rotate_left(p_index)
+        }""", note='red-sibling case rotates left in both mirrors'),
+    dict(id='T5-map-delete-colour-of-successor', props=['C02'], file='src/map/tree.rs',
+         old="""            nd_right = successor.right;
+            nd_color = successor.color;
+""",
+         new="""            nd_right = successor.right;
+""", note='two-children removal judges by the colour of the removed node instead of the successor'),
+    dict(id='T6-set-get-sibling', props=['C02'], file='src/set/tree.rs',
+         old="""        if n_index == parent.left {
+            parent.right
+        } else {
+            parent.left
+        }""",
+         new="""        if n_index == parent.left {
+            parent.right
+        } else {
+            parent.right
+        }""", note='sibling of a right child is computed wrongly'),
+    dict(id='T7-key-case6-nephew', props=['C02'], file='src/key/tree.rs',
+         old="""        } else {
+            if sibling_left != EMPTY_REF {
+                self.node_mut(sibling_left).color = Color::Black;
+            }
+            self.rotate_right(p_index)
+        }""",
+         new="""        } else {
+            self.rotate_right(p_index)
+        }""", note='case 6 (right-hand mirror) forgets to blacken the outer nephew'),
+    dict(id='T8-map-uncle', props=['C02'], file='src/map/tree.rs',
+         old="""        if grandparent.left == p_index {
+            grandparent.right
+        } else {
+            grandparent.left
+        }""",
+         new="""        if grandparent.left == p_index {
+            grandparent.right
+        } else {
+            grandparent.right
+        }""", note='uncle of a right-hand parent is the parent itself'),
+    dict(id='T9-set-insert-fix-recursion', props=['C02'], file='src/set/tree.rs',
+         old="""            if gg_index != EMPTY_REF && self.node(gg_index).color == Color::Red {
+                self.fix_red_black_properties_after_insert(g_index, gg_index);
+            }""",
+         new="""            if gg_index != EMPTY_REF && self.node(gg_index).color == Color::Black {
+                self.fix_red_black_properties_after_insert(g_index, gg_index);
+            }""", note='red-uncle recursion continues on the wrong colour'),
 ]
